@@ -111,6 +111,11 @@ def hyp_part(n_examples, shard):
             pads = ("", " ", "\t", "\n", "\r", "\x0b", "\x0c", "\x1c", "\x1d", "\x1e", "\x1f", "\x85", "\xa0", "\u2003", "\u2028", "\u3000", "\ufeff",
                     "\x00", "\x08", "\x7f", "\u200b")
             sc = draw(st.sampled_from(("%.1f" % base, "%.1f" % ((base + 0.1) % 10.1))))
+            if draw(st.integers(0, 5)) == 0:
+                # thousands of digits in the score slot (beyond the limit some interpreters put on int(str)): float() still reads them
+                n = draw(st.sampled_from((50, 400, 4301, 5000, 20000)))
+                sc = draw(st.sampled_from((sc + "0" * n, "0" * n + sc, sc + "0" * n + "1", sc.replace(".", "." + "0" * n))))
+                return ver, kind, sc + "/" + v
             return ver, kind, draw(st.sampled_from(pads)) + sc + draw(st.sampled_from(pads)) + "/" + v
         if kind == "special-score":
             sc = draw(st.sampled_from(("nan", "inf", "-inf", "-0.0", "1e1", "10", "0", "1_0", "٣.٥", "0x10", "1e400", ".5", "5.", "")))
